@@ -7,6 +7,7 @@ import (
 	"fmt"
 	"io"
 	"sync"
+	"sync/atomic"
 
 	"github.com/NethermindEth/juno/db"
 	"github.com/bits-and-blooms/bitset"
@@ -28,23 +29,35 @@ type RunningEventFilter struct {
 	database db.KeyValueStore
 
 	initialize RunningEventFilterInitializer
-	initErr    error
-	lazyOnce   sync.Once
+	// initMu serialises the lazy initialisation; initDone is set once it has succeeded.
+	// A failed initialisation is not remembered: the next access runs it again.
+	initMu   sync.Mutex
+	initDone atomic.Bool
 }
 
 func (f *RunningEventFilter) ensureInit() error {
-	if f.initialize != nil {
-		f.lazyOnce.Do(func() {
-			filter, err := f.initialize(f.database)
-			if err != nil {
-				f.initErr = fmt.Errorf("couldn't initialize the running event filter: %w", err)
-				return
-			}
-			f.inner = filter.inner
-			f.next = filter.next
-		})
+	if f.initialize == nil || f.initDone.Load() {
+		return nil
 	}
-	return f.initErr
+
+	f.initMu.Lock()
+	defer f.initMu.Unlock()
+	if f.initDone.Load() {
+		return nil
+	}
+
+	// The initializer can fail for a transient reason (it reads the database and, when a
+	// fill reaches the end of a window, persists that window). Keeping the error would make
+	// every later Insert / Write / query fail for the life of the instance although the
+	// database is intact, so only success is recorded.
+	filter, err := f.initialize(f.database)
+	if err != nil {
+		return fmt.Errorf("couldn't initialize the running event filter: %w", err)
+	}
+	f.inner = filter.inner
+	f.next = filter.next
+	f.initDone.Store(true)
+	return nil
 }
 
 // Reset drops the in-memory state of a lazily initialised filter, so that the next access
@@ -62,8 +75,7 @@ func (f *RunningEventFilter) Reset() {
 	}
 	f.inner = nil
 	f.next = 0
-	f.initErr = nil
-	f.lazyOnce = sync.Once{}
+	f.initDone.Store(false)
 }
 
 // NewRunningEventFilterHot returns a RunningEventFilter that wraps the provided
@@ -475,9 +487,9 @@ func (f *RunningEventFilter) UnmarshalBinary(data []byte) error {
 		return fmt.Errorf("read next block: %w", err)
 	}
 
-	f.initErr = nil
 	f.mu = sync.RWMutex{}
-	f.lazyOnce = sync.Once{}
+	f.initMu = sync.Mutex{}
+	f.initDone.Store(false)
 	f.initialize = nil
 
 	return nil
